@@ -75,7 +75,7 @@ Print Assumptions C17_svg_transform_spec.
 
 (* non-vacuity: a non-trivial list, and the skewX entry position *)
 Example C17_css_example :
-  let g := {| bbx := 10; bby := 20; bw := 100; bh := 50; orx := Pct 50; ory := Pct 50 |} in
+  let g := {| bbx := 10; bby := 20; bw := 100; bh := 50; orx := Pct 50; ory := Pct 50; fsz := 16 |} in
   meq (css_matrix exactQ g [TSkew (1#2) 0; TTranslate (Px 3) (Pct 10); TScale 2 3])
       (mk 2 0 (3 # 2) 3 (-122) (-85)) /\
   Matrix.C (css_matrix exactQ g [TSkew (1#2) 0]) == 1#2.
